@@ -75,6 +75,81 @@ theorem C04_other_location (c : Codec K V) (st : Store K V) (h : PHandle) (op : 
   | none => rfl
   | some b => simp [get?_put, hl]
 
+/-! ## … and what it sees is what a dict would hold (C03 through the store) -/
+
+def bstRun (c : Codec K V) (b : BSt K V) : List (Backend.Op K V) → BSt K V
+  | [] => b
+  | op :: ops => bstRun c (b.step c op).1 ops
+
+theorem hrun_at (c : Codec K V) (st : Store K V) (w : PHandle) (b : BSt K V) (ops : List (Backend.Op K V))
+    (hb : get? st w.loc = some b) : get? (hrun c st w ops) w.loc = some (bstRun c b ops) := by
+  induction ops generalizing st b with
+  | nil => exact hb
+  | cons op ops ih =>
+    simp only [hrun, bstRun]
+    apply ih
+    simp [hstep, hb, get?_put]
+
+theorem bstRun_file (c : Codec K V) (m : List (K × V)) (ops : List (Backend.Op K V)) :
+    bstRun c (.file m) ops = .file (C03.runWith (fileStep c) m ops).1 := by
+  induction ops generalizing m with
+  | nil => rfl
+  | cons op ops ih => simp only [bstRun, BSt.step, C03.runWith]; exact ih _
+
+theorem bstRun_sql (c : Codec K V) (rows : SqlSt K V) (ops : List (Backend.Op K V)) :
+    bstRun c (.sql rows) ops = .sql (C03.runWith (sqlStep c) rows ops).1 := by
+  induction ops generalizing rows with
+  | nil => rfl
+  | cons op ops ih => simp only [bstRun, BSt.step, C03.runWith]; exact ih _
+
+theorem bstRun_dir (c : Codec K V) (s : DirSt K V) (ops : List (Backend.Op K V)) :
+    bstRun c (.dir s) ops = .dir (C03.runWith (dirStep c) s ops).1 := by
+  induction ops generalizing s with
+  | nil => rfl
+  | cons op ops ih => simp only [bstRun, BSt.step, C03.runWith]; exact ih _
+
+/-- **`file_archive`: a fresh handle (same process, another process, after the writer exited) reads a
+dict `l` whose contents are exactly those a Python dict would hold after the same operations** — the
+write history through `w` is a dict history (`DictRun`) from the initial contents to `get? l` -/
+theorem C04_file_fresh_sees_dict (c : Codec K V) (st : Store K V) (w f : PHandle) (m : List (K × V))
+    (ops : List (Backend.Op K V)) (hloc : f.loc = w.loc) (hm : get? st w.loc = some (.file m))
+    (hinv : C03.FileInv c m) (ha : ∀ op ∈ ops, ∀ p ∈ C03.stores op, C03.Enc c p) :
+    ∃ l, hview c (hrun c st w ops) f = some l ∧
+      DictRun (get? m) (C03.runWith (fileStep c) m ops).2 (get? l) := by
+  refine ⟨(C03.runWith (fileStep c) m ops).1, ?_, C03.file_run c m ops hinv ha⟩
+  simp [hview, hloc, hrun_at c st w _ ops hm, bstRun_file, BSt.asDict]
+
+/-- the same for the sqlite table (no invariant needed) -/
+theorem C04_sql_fresh_sees_dict (c : Codec K V) (st : Store K V) (w f : PHandle) (rows : SqlSt K V)
+    (ops : List (Backend.Op K V)) (hloc : f.loc = w.loc) (hm : get? st w.loc = some (.sql rows))
+    (ha : ∀ op ∈ ops, ∀ p ∈ C03.stores op, C03.Enc c p)
+    (hr : ∀ x ∈ (C03.runWith (sqlStep c) rows ops).2, x.2 ≠ .refused) :
+    ∃ l, hview c (hrun c st w ops) f = some l ∧
+      DictRun (sqlGet rows) (C03.runWith (sqlStep c) rows ops).2 (get? l) := by
+  refine ⟨sqlDict (C03.runWith (sqlStep c) rows ops).1, ?_, ?_⟩
+  · simp [hview, hloc, hrun_at c st w _ ops hm, bstRun_sql, BSt.asDict]
+  · rw [view_sqlDict]; exact C03.sql_run c rows ops ha hr
+
+/-- … and for `dir_archive` on a key universe with distinct file names -/
+theorem C04_dir_fresh_sees_dict (c : Codec K V) (U : K → Prop) (hc : DirCodecOK c U) (st : Store K V) (w f : PHandle)
+    (s : DirSt K V) (ops : List (Backend.Op K V)) (hloc : f.loc = w.loc) (hm : get? st w.loc = some (.dir s))
+    (hinv : DirInv c U s) (hk : ∀ op ∈ ops, ∀ k ∈ C03.opKeys op, U k)
+    (hv : ∀ op ∈ ops, ∀ p ∈ C03.stores op, c.cv p.2 = some p.2)
+    (hr : ∀ x ∈ (C03.runWith (dirStep c) s ops).2, x.2 ≠ .refused) :
+    ∃ l, hview c (hrun c st w ops) f = some l ∧
+      DictRun (get? (toDict c s)) (C03.runWith (dirStep c) s ops).2 (get? l) := by
+  have hinv' : DirInv c U (C03.runWith (dirStep c) s ops).1 := by
+    clear hm
+    induction ops generalizing s with
+    | nil => exact hinv
+    | cons op ops ih =>
+      simp only [C03.runWith]
+      have h1 := C03.dir_step c U hc s op hinv (hk op (by simp)) (hv op (by simp)) (hr (op, (dirStep c s op).2) (by simp [C03.runWith]))
+      exact ih _ h1.2 (fun o ho => hk o (List.mem_cons_of_mem _ ho)) (fun o ho => hv o (List.mem_cons_of_mem _ ho))
+        (fun x hx => hr x (by simp only [C03.runWith, List.mem_cons]; exact Or.inr hx))
+  refine ⟨toDict c (C03.runWith (dirStep c) s ops).1, ?_, C03.dir_run c U hc s ops hinv hk hv hr⟩
+  simp [hview, hloc, hrun_at c st w _ ops hm, bstRun_dir, BSt.asDict, dirItems_eq hc _ hinv']
+
 /-! ## a stored value stays as stored until its key is named -/
 
 /-- the operations that can remove or change a key they do not name -/
